@@ -70,7 +70,7 @@ func init() {
 	connVals := []string{"", "", "close", "Close", "CLOSE", "keep-alive", "Keep-Alive", "keep-alive, close", "keep-alive,close", "foo,close", "close, foo", "keep-alive,\tclose", "upgrade", "closed", "xclose", "close;q=1", "keep-alive\x00close2"}
 	Register(&Prop{
 		ID: "C10",
-		Rule: "server: histories of 1..5 pipelined requests (HTTP/1.0|1.1, Connection token lists in several cases/positions, one or two Connection lines, handler SetConnectionClose) x DisableKeepalive x MaxRequestsPerConn 0..3, " +
+		Rule: "server: histories of 1..5 pipelined requests (HTTP/1.0|1.1, Connection token lists in several cases/positions, one or two Connection lines, handler asking for close through ctx.SetConnectionClose / Response.Header.Set / a TimeoutErrorWithResponse response) x DisableKeepalive x MaxRequestsPerConn 0..3, " +
 			"followed by a sentinel request that is served iff the connection is still open; client: HostClient doing two sequential requests against a scripted in-memory server whose first response carries a Connection variant; " +
 			"non-trivial = some request or response carries a Connection field or a limit is set; distinct = distinct input",
 		Parallel: true,
@@ -97,12 +97,26 @@ func init() {
 					if h10 {
 						ver = "HTTP/1.0"
 					}
+					// a[i+2]: 0 none, 1 ctx.SetConnectionClose, 2 TimeoutErrorWithResponse(resp asking close),
+					// 3 TimeoutErrorWithResponse(resp not asking close), 4 Response.Header.Set("Connection","close")
 					q := ""
-					if hc {
+					switch a[i+2][0] {
+					case 1:
 						q = "?close=1"
+					case 2:
+						q = "?ter=1"
+					case 3:
+						q = "?ter=0"
+						hc = false
+					case 4:
+						q = "?hcl=1"
+					}
+					ri.hclose = hc
+					if a[i+2][0] > 1 {
+						nt = true
 					}
 					fmt.Fprintf(&stream, "GET /r%d%s %s\r\nHost: h\r\n", len(reqs), q, ver)
-					line = append(line, []byte("R"), a[i+1], a[i+2], B("Host"), B("h"))
+					line = append(line, []byte("R"), a[i+1], []byte{byte(b2i(hc))}, B("Host"), B("h"))
 					for _, cv := range [][]byte{a[i+3], a[i+4]} {
 						if string(cv) != "-" && len(cv) > 0 {
 							fmt.Fprintf(&stream, "Connection: %s\r\n", cv)
@@ -277,7 +291,11 @@ func init() {
 					if c2 == "" {
 						c2 = "-"
 					}
-					args = append(args, B("R"), []byte{byte(b2i(r.Chance(25)))}, []byte{byte(b2i(r.Chance(10)))}, B(c1), B(c2))
+					hmode := byte(0)
+					if r.Chance(16) {
+						hmode = byte(1 + r.Intn(4))
+					}
+					args = append(args, B("R"), []byte{byte(b2i(r.Chance(25)))}, []byte{hmode}, B(c1), B(c2))
 				}
 				emit("hist", args...)
 			}
